@@ -600,7 +600,7 @@ class WriterExtractor:
         path, tcls, is_elem = target_obj
         if isinstance(recv, ast.Name) and env[recv.id][0] == "self" and self.m.find_method(cls_q, f.attr) is not None:
             # call on self: inline with the concrete class
-            sub = self.grammar_into(cls_q, f.attr, path, wargs, env)
+            sub = self.grammar_into(cls_q, f.attr, path, wargs, env, call=c, caller=fi)
             if assign_to is not None:
                 return self._value_of(sub)
             return None
@@ -627,6 +627,35 @@ class WriterExtractor:
                     return carried
         return None
 
+    def _bind_call_args(self, c: ast.Call, hf: FuncInfo, ps: List[str], env: Dict[str, Any], env2: Dict[str, Any], fi: FuncInfo, cls_q: str) -> None:
+        """parameters `ps` of the callee (positional order, without the receiver) bound to what the caller passes: writers, field
+        sources, constants"""
+        pairs = [(i, None, a) for i, a in enumerate(c.args)] + [(None, k.arg, k.value) for k in c.keywords]
+        for i, kw, a in pairs:
+            p_ = ps[i] if i is not None and i < len(ps) else kw
+            if p_ is None or p_ not in ps or p_ in env2:
+                continue
+            if isinstance(a, ast.Name) and a.id in env:
+                env2[p_] = env[a.id]
+            else:
+                oc = self._optional_carry(a, env, fi)
+                if oc is not None:
+                    env2[p_] = ("src", oc)
+                    continue
+                sr = self._src(a, env, fi)
+                if sr.kind in ("field", "elem"):
+                    env2[p_] = ("src", sr)
+                    continue
+                try:
+                    env2[p_] = ("const", self.folder.fold(a, fi.module, None, cls_q))
+                except Unfoldable:
+                    if sr.kind != "unknown":
+                        env2[p_] = ("src", sr)
+                    mentions_field = any((isinstance(x, ast.Attribute) and isinstance(x.value, ast.Name) and x.value.id == "self") or
+                                         (isinstance(x, ast.Name) and env.get(x.id, ("",))[0] == "src") for x in ast.walk(a))
+                    if mentions_field and sr.kind not in ("field", "elem") and isinstance(a, (ast.IfExp, ast.BoolOp, ast.BinOp, ast.Subscript)):
+                        raise AnalysisError(f"{fi.qualname}:{c.lineno}: argument `{norm(a)[:60]}` of the writer helper {hf.name} is computed from fields in a way the extractor does not follow")
+
     def _helper_call(self, c: ast.Call, env: Dict[str, Any], fi: FuncInfo, cls_q: str, assign_to: Optional[str]):
         """A module-level helper that is handed a writer: interpreted in place, with its parameters bound to the
         caller's writer / field sources (a pack loop moved out of a method reads the same)."""
@@ -646,32 +675,7 @@ class WriterExtractor:
             raise AnalysisError(f"{fi.qualname}:{c.lineno}: helper nesting too deep")
         ps = hf.params()
         env2: Dict[str, Any] = {}
-        for i, kw, a in pairs:
-            p_ = ps[i] if i is not None and i < len(ps) else kw
-            if p_ is None or p_ not in ps:
-                continue
-            if isinstance(a, ast.Name) and a.id in env:
-                env2[p_] = env[a.id]
-            else:
-                oc = self._optional_carry(a, env, fi)
-                if oc is not None:
-                    env2[p_] = ("src", oc)
-                    continue
-                sr = self._src(a, env, fi)
-                if sr.kind in ("field", "elem"):
-                    env2[p_] = ("src", sr)
-                    continue
-                try:
-                    env2[p_] = ("const", self.folder.fold(a, fi.module, None, cls_q))
-                except Unfoldable:
-                    if sr.kind != "unknown":
-                        env2[p_] = ("src", sr)
-                    # a computed argument that draws on the object's fields in a way that is not read: the helper would be
-                    # interpreted with a value of unknown origin and the field would look unwritten
-                    mentions_field = any((isinstance(x, ast.Attribute) and isinstance(x.value, ast.Name) and x.value.id == "self") or
-                                         (isinstance(x, ast.Name) and env.get(x.id, ("",))[0] == "src") for x in ast.walk(a))
-                    if mentions_field and sr.kind not in ("field", "elem") and isinstance(a, (ast.IfExp, ast.BoolOp, ast.BinOp, ast.Subscript)):
-                        raise AnalysisError(f"{fi.qualname}:{c.lineno}: argument `{norm(a)[:60]}` of the writer helper {hf.name} is computed from fields in a way the extractor does not follow")
+        self._bind_call_args(c, hf, ps, env, env2, fi, cls_q)
         # parameters left to their defaults
         a_ = hf.node.args
         allp = a_.posonlyargs + a_.args
@@ -697,13 +701,13 @@ class WriterExtractor:
         body = [s for s in fi.node.body if not (isinstance(s, ast.Expr) and isinstance(s.value, ast.Constant))]
         return len(body) == 1 and isinstance(body[0], ast.Raise)
 
-    def grammar_into(self, cls_q: str, method: str, self_path: str, wargs: List[ast.Name], env: Dict[str, Any]):
+    def grammar_into(self, cls_q: str, method: str, self_path: str, wargs: List[ast.Name], env: Dict[str, Any], call: Optional[ast.Call] = None, caller: Optional[FuncInfo] = None):
         fi = self.m.find_method(cls_q, method)
         if fi is None:
             raise AnalysisError(f"{cls_q}.{method} not found")
-        return self.grammar_into_fi(fi, self_path, wargs, env, cls_q)
+        return self.grammar_into_fi(fi, self_path, wargs, env, cls_q, call, caller)
 
-    def grammar_into_fi(self, fi: FuncInfo, self_path: str, wargs: List[ast.Name], env: Dict[str, Any], cls_q: str):
+    def grammar_into_fi(self, fi: FuncInfo, self_path: str, wargs: List[ast.Name], env: Dict[str, Any], cls_q: str, call: Optional[ast.Call] = None, caller: Optional[FuncInfo] = None):
         env2: Dict[str, Any] = {}
         params = fi.params()
         env2[params[0]] = ("self", self_path, cls_q)
@@ -713,6 +717,9 @@ class WriterExtractor:
             if t == ("inst", f"{ASN1}.ASN1Writer") and wi < len(wargs):
                 env2[p] = env[wargs[wi].id]
                 wi += 1
+        if call is not None and caller is not None and self_path == "" and not any(isinstance(a, ast.Starred) for a in call.args) and all(k.arg for k in call.keywords):
+            # a method of the object's own class handed pieces of the object (self._pack_x(writer, options, self.attribute, ...))
+            self._bind_call_args(call, fi, params[1:], env, env2, caller, cls_q)
         return self._block(fi.node.body, env2, fi, cls_q)
 
     def _value_of(self, sub: Optional[List[WNode]]):
